@@ -49,7 +49,14 @@ class InitMethod(MethodDescriptor):
                 "__spec_class_initializing__", True, force=True, skip_invalidation=True
             )
             for parent in reversed(spec_cls.mro()[1:]):
-                parent_metadata = getattr(parent, "__spec_class__", None)
+                # Only classes that are themselves spec-classes have a
+                # constructor to delegate to (a plain intermediate class merely
+                # inherits its parent's, which has already been called).
+                parent_metadata = (
+                    getattr(parent, "__spec_class__", None)
+                    if "__spec_class__" in parent.__dict__
+                    else None
+                )
                 if parent_metadata:
                     parent_kwargs = {}
                     for attr in parent_metadata.attrs:
